@@ -6,6 +6,7 @@ import XrsVerif.Proofs.ViewshedDiscipline
 import XrsVerif.Gen.ViewshedFacts
 import XrsVerif.Proofs.ILViewshedOrder
 import XrsVerif.Proofs.ILViewshedRotR
+import XrsVerif.Proofs.ILViewshedSucc
 import Mathlib.Tactic.Positivity
 /-
   C05 -- viewshed marks a cell visible exactly when the line-of-sight model says so.
@@ -73,6 +74,10 @@ import Mathlib.Tactic.Positivity
                                  over initial fill + sweep every cell is inserted, queried, deleted in this order (east ray:
                                  and re-inserted at the very end); an insertion never meets an active cell, a query or
                                  deletion always does; without the initial fill this fails.
+    * the generated status-tree routines (section 7, layer T3): `generated_query_decides` -- the program translated
+      statement by statement from `_max_grad_in_status_struct` decides line of sight on every state whose arrays hold a
+      well-linked BST without overestimates below the root; `generated_rotations_are_model_rotations`,
+      `generated_left_rotation_preserves`, `generated_small_routines`, `generated_tree_successor`.
       NOT in the model: the float value of a bearing (`atan`), of a gradient (`atan`, `sqrt`) -- compared by seam 0 / the
       geometric oracle of the correspondence; NaN terrains (outside the property's quantifier).
 -/
@@ -840,6 +845,20 @@ theorem generated_small_routines (s : State F) (fuel n : Nat) (hv : VS s n) (hru
   · exact ⟨minIdx l i, (vsTreeMinimum_refines s fuel n hv hrun l i r par hl hx hf).2.1, minIdx_head _ _ l i r⟩
   · rw [(vsSearch_refines s fuel n hv hrun sh par hl hr hf).2.1, findPtr_contains]
     simp
+
+/-- the generated `_tree_successor` at a node with a right subtree (the only use `_delete_from_tree` makes of it)
+    returns the row of the in-order successor: the first node in order of the right subtree -/
+theorem generated_tree_successor (s : State F) (fuel n : Nat) (hv : VS s n) (hrun : s.ctl = .run)
+    (l : Sh) (i : Nat) (rl : Sh) (m : Nat) (rr : Sh) (ctx : ILVs.Ctx)
+    (hl : Linked (s.ia "tree_nodes") n (ctxPar ctx) (.node l i (.node rl m rr)))
+    (hc : CtxLinked (s.ia "tree_nodes") n (i : Int) ctx) (hx : s.ienv "x" = i)
+    (hf : (Sh.node rl m rr).height + ctx.length + 1 < fuel) :
+    let q := Gen.IL.vsTreeSuccessor.run s fuel
+    q.ctl = .ret ∧ ∃ k : Nat, q.ienv "ret0" = k ∧
+      (absT (s.fa "tree_vals") (s.ia "tree_nodes") (.node rl m rr)).toList.head? = some (nodeAt (s.fa "tree_vals") k) := by
+  obtain ⟨h1, h2, _, _⟩ := vsTreeSuccessor_refines s fuel n hv hrun l i (.node rl m rr) ctx hl hc hx hf
+  obtain ⟨k, hk, hh⟩ := succPtr_head (s.fa "tree_vals") (s.ia "tree_nodes") i rl m rr ctx
+  exact ⟨h1, k, h2.trans hk, hh⟩
 
 /-! non-vacuity: a concrete state holding the three-node tree of the example after `query_decides` (rows 0 = the root
     with key 2, 1 = key 1, 2 = key 3, 3 = NIL); the generated query at key 3 returns 2, the gradient of the node
